@@ -21,26 +21,36 @@ record: padding, large key shares): the value is the 32-byte random field -/
 theorem extract_exact (recVersion version random sid suites comps exts suffix : Bytes)
     (h : HelloWF recVersion version random sid suites comps exts) :
     extract (chRecord recVersion version random sid suites comps exts ++ suffix) = .found random := by
-  sorry
+  obtain ⟨a, b, rfl⟩ := len2 h.rv
+  rw [chRecord_shape]
+  exact extract_shape a b _ suffix random
+    (parse_chBody version random sid suites comps exts h.v h.r h.s h.c.1 h.c.2) h.fits
 
 /-- every strict prefix of the record asks for more data (never a wrong or early answer) -/
 theorem prefix_needs_more (recVersion version random sid suites comps exts : Bytes)
     (h : HelloWF recVersion version random sid suites comps exts) (n : Nat)
     (hn : n < (chRecord recVersion version random sid suites comps exts).length) :
     extract ((chRecord recVersion version random sid suites comps exts).take n) = .needMore := by
-  sorry
+  obtain ⟨a, b, rfl⟩ := len2 h.rv
+  rw [chRecord_shape] at hn ⊢
+  have hfits := h.fits
+  unfold maxRecordLen at hfits
+  apply extract_prefix_shape
+  · simp only [List.length_cons]; omega
+  · unfold maxRecordLen; simp only [List.length_cons]; omega
+  · simp only [List.length_cons] at hn ⊢; omega
 
 /-- **Never some other value**: whatever the input, a reported random is bytes 11..43 of a
 handshake record that starts the stream and carries a ClientHello -/
 theorem found_is_the_field (data r : Bytes) (h : extract data = .found r) :
     r = (data.drop 11).take 32 ∧ data.head? = some 22 ∧ data[5]? = some 1 ∧ 43 ≤ data.length := by
-  sorry
+  exact found_is_the_field' data r h
 
 /-- the read loop never loses, duplicates or reorders bytes: prebuffer ++ unread = the stream -/
 theorem loop_conserves (avail : List Nat) (pre stream : Bytes) :
     let res := readLoop avail pre stream
     res.2.1 ++ res.2.2 = pre ++ stream := by
-  sorry
+  exact loop_conserves' avail pre stream
 
 /-- **Segmentation invariance of the loop**: for every arrival schedule (every segmentation and
 timing of the first flight) long enough to deliver the record, the loop reports exactly the
@@ -52,26 +62,30 @@ theorem loop_segmentation_invariant (recVersion version random sid suites comps 
     (avail : List Nat)
     (hlen : avail.length > (chRecord recVersion version random sid suites comps exts).length) :
     (readLoop avail [] (chRecord recVersion version random sid suites comps exts ++ suffix)).1 = some random := by
-  sorry
+  refine loop_seg' _ random ?_ ?_ hfit suffix avail [] _ (by simp) (by unfold maxPrebuffer; simp) (by simpa using hlen)
+  · intro n hn
+    exact prefix_needs_more recVersion version random sid suites comps exts h n hn
+  · intro sfx
+    exact extract_exact recVersion version random sid suites comps exts sfx h
 
 /-- whatever the stream, the loop's answer is absent or the field of the stream's first record -/
 theorem loop_absent_never_wrong (avail : List Nat) (stream r : Bytes)
     (h : (readLoop avail [] stream).1 = some r) :
     r = (stream.drop 11).take 32 := by
-  sorry
+  simpa using loop_absent' avail [] stream r h
 
 /-- **Transparent replay**: whatever buffer sizes the TLS stack reads with, it receives the
 prebuffer followed by the rest of the socket: the concatenation of what the reads returned is a
 prefix of `pre ++ rest`, and nothing else -/
 theorem replay_transparent (caps : List Nat) (pre rest : Bytes) (pos : Nat) (hp : pos ≤ pre.length) :
     ∃ k, (replayReads caps pre pos rest).flatten = ((pre.drop pos) ++ rest).take k := by
-  sorry
+  exact replay_transparent' caps pre rest pos hp
 
 /-- and with positive buffers and enough reads everything is delivered -/
 theorem replay_complete (caps : List Nat) (pre rest : Bytes) (hc : ∀ c ∈ caps, 0 < c)
     (hl : caps.length ≥ pre.length + rest.length) :
     (replayReads caps pre 0 rest).flatten = pre ++ rest := by
-  sorry
+  simpa using replay_complete' caps pre rest 0 hc (Nat.zero_le _) (by simpa using hl)
 
 example : extract (chRecord [3, 1] [3, 3] (List.replicate 32 7) [] [0x13, 0x01] [0] [] ++ [9, 9]) =
     .found (List.replicate 32 7) := by decide +kernel
